@@ -2457,8 +2457,15 @@ func (s *Store) waitForLinearizableRead(currReadTerm uint64, linearizableTimeout
 		lt = linearizableTimeout
 	}
 
-	// Now, wait for it.
-	ch := s.fsmTarget.Subscribe(readIndex)
+	// Now, wait for it. Only command entries are delivered to the FSM, so wait
+	// for the newest such entry at or before the read index. Waiting on the read
+	// index itself would never complete without a further write if the latest
+	// committed entries are, say, a configuration change or a barrier.
+	waitIndex := s.lastFSMIndexAtOrBefore(readIndex)
+	if waitIndex <= s.fsmIdx.Load() {
+		return nil
+	}
+	ch := s.fsmTarget.Subscribe(waitIndex)
 	select {
 	case <-ch:
 		vhook.Point("linread.before_return")
@@ -2466,6 +2473,26 @@ func (s *Store) waitForLinearizableRead(currReadTerm uint64, linearizableTimeout
 	case <-time.After(lt):
 		return fmt.Errorf("index %d: %w", readIndex, ErrWaitForFSMTimeout)
 	}
+}
+
+// lastFSMIndexAtOrBefore returns the index of the newest log entry, at or before
+// idx, which is delivered to the FSM. Raft also commits entries which never reach
+// the FSM (configuration changes, no-ops, barriers), so the FSM index can never
+// reach the index of such an entry until a later command is applied. If the FSM
+// has already applied every command at or before idx, the current FSM index is
+// returned. If the log cannot be read, idx itself is returned.
+func (s *Store) lastFSMIndexAtOrBefore(idx uint64) uint64 {
+	fsmIdx := s.fsmIdx.Load()
+	for i := idx; i > fsmIdx; i-- {
+		var l raft.Log
+		if err := s.raftLog.GetLog(i, &l); err != nil {
+			return idx
+		}
+		if l.Type == raft.LogCommand {
+			return i
+		}
+	}
+	return fsmIdx
 }
 
 func (s *Store) isStaleRead(freshness int64, strict bool) bool {
